@@ -89,8 +89,16 @@ class SThread:
 
 
 class Scheduler:
-    def __init__(self, sim, trace_files=(), preempt_p=0.0):
+    def __init__(self, sim, trace_files=(), preempt_p=0.0, policy="uniform"):
+        """policy "uniform": every hand-over picks uniformly among the runnable threads.
+        policy "pct" (probabilistic concurrency testing, Burckhardt et al. 2010): threads get tape-drawn priorities, the
+        runnable thread with the highest priority always runs, and a hand-over at a pre-emption point *demotes* the running
+        thread below everybody else - so a run has few, randomly placed, long-lasting pre-emptions, which is what
+        ordering bugs of small depth need (thread A stopped at one exact line while thread B runs a whole operation)."""
         self.sim = sim
+        self.policy = policy
+        self.prio = {}
+        self._low = 0
         self.threads = []
         self.current = None
         self.back = _real_Semaphore(0)
@@ -131,12 +139,16 @@ class Scheduler:
     def me(self):
         return self._by_ident.get(_real_get_ident())
 
-    def point(self, label=None):
-        """Potential hand-over: park this thread and let the scheduler choose."""
+    def point(self, label=None, demote=False):
+        """Potential hand-over: park this thread and let the scheduler choose.
+        demote (policy "pct" only): the thread's priority drops below everybody else's first."""
         t = self.me()
         if t is None:
             return  # scheduler/main thread: nothing to do
         t.steps += 1
+        if demote and self.policy == "pct":
+            self._low -= 1
+            self.prio[t] = self._low
         self._park(t)
 
     def _park(self, t):
@@ -184,6 +196,9 @@ class Scheduler:
             t = self.me()
             if t is not None and self.current is t and self.preempt_p and self.sim.draw_bool(self.preempt_p, "preempt"):
                 self.sim.probe("line_preemption")
+                if self.policy == "pct":
+                    self._low -= 1
+                    self.prio[t] = self._low
                 self.point("line")
         return self._line
 
@@ -210,6 +225,16 @@ class Scheduler:
             t = choose(r)
         elif len(r) == 1:
             t = r[0]
+        elif self.policy == "pct":
+            for x in r:
+                if x not in self.prio:
+                    self.prio[x] = self.sim.draw_int(1, 64, "prio")
+            if self.current in r and self.sim.draw_bool(0.05, "demote"):
+                # explicit yield points / lock hand-overs are change points too
+                self._low -= 1
+                self.prio[self.current] = self._low
+            t = max(r, key=lambda x: (self.prio[x], -self.threads.index(x)))
+            self.sim.fault("interleave") if t is not self.current and self.current is not None and self.current.state != "done" else None
         else:
             t = r[self.sim.draw_int(0, len(r) - 1, "sched")]
             self.sim.fault("interleave") if t is not self.current and self.current is not None and self.current.state != "done" else None
